@@ -547,6 +547,24 @@ fn fuzz_entry(op: &str, cmd: &Value) -> Option<OpResult> {
             Ok(json!({"kind": match r { Ok(_) => "ok".to_owned(), Err(e) => {
                 e.to_string().chars().take(60).collect::<String>() } }}))
         })(),
+        "content_disposition_build" => (|| {
+            use ruma_common::http_headers::{ContentDisposition, ContentDispositionType};
+            let ty = match opt_s(cmd, "type").unwrap_or("attachment") {
+                "inline" => ContentDispositionType::Inline,
+                "attachment" => ContentDispositionType::Attachment,
+                x => match ContentDispositionType::parse(x) {
+                    Ok(t) => t,
+                    Err(e) => return Ok(json!({"type_err": e.to_string()})),
+                },
+            };
+            let cd = ContentDisposition::new(ty).with_filename(opt_s(cmd, "filename").map(str::to_owned));
+            let text = cd.to_string();
+            Ok(match ContentDisposition::try_from(text.as_bytes()) {
+                Ok(back) => json!({"text": text, "back_filename": back.filename, "back_type": back.disposition_type.as_str(),
+                                   "equal": back == cd}),
+                Err(e) => json!({"text": text, "back_err": e.to_string()}),
+            })
+        })(),
         "content_disposition" => (|| {
             use ruma_common::http_headers::ContentDisposition;
             let text = s(cmd, "text")?;
